@@ -151,16 +151,24 @@ fn placeholder_size() {
 
 // ---- item variation store (OpenType "Item variation store header": format u16, variationRegionListOffset Offset32,
 //      itemVariationDataCount u16, itemVariationDataOffsets Offset32[]; all offsets from the start of the store) ----------
-//@ harness ivs_roundtrip kind=bounded:1region_1subtable fns=ItemVariationStore::write,ItemVariationStore::read,VariationRegionList::write,VariationRegionList::read,ItemVariationData::write,ItemVariationData::read timeout=900
+//@ harness ivs_roundtrip kind=bounded:1region_1subtable_8bit_delta fns=ItemVariationStore::write,ItemVariationStore::read,VariationRegionList::write,VariationRegionList::read,ItemVariationData::write,ItemVariationData::read timeout=900
 #[kani::proof]
-#[kani::unwind(33)]
-fn ivs_roundtrip() {
+#[kani::unwind(36)]
+fn ivs_roundtrip() { ivs_case(false) }
+
+//@ harness ivs_roundtrip_long kind=bounded:1region_1subtable_LONG_WORDS_32bit_delta fns=ItemVariationStore::write,ItemVariationStore::read,ItemVariationData::write,ItemVariationData::read timeout=900
+#[kani::proof]
+#[kani::unwind(36)]
+fn ivs_roundtrip_long() { ivs_case(true) }
+
+fn ivs_case(long_words: bool) {
     use crate::tables::variable_fonts::ItemVariationStore;
-    // canonical layout of a store with one region on one axis and one delta-set sub-table holding one 8-bit delta;
-    // the region coordinates and the delta are symbolic
+    // canonical layout of a store with one region on one axis and one delta-set sub-table holding one delta:
+    // an 8-bit delta (wordDeltaCount = 0), or a 32-bit delta (wordDeltaCount = LONG_WORDS | 1); coordinates and delta bytes symbolic
     let coords: [u8; 6] = kani::any();
-    let delta: u8 = kani::any();
-    let mut b = [0u8; 31];
+    let delta: [u8; 4] = kani::any();
+    let n = if long_words { 34 } else { 31 };
+    let mut b = [0u8; 34];
     b[1] = 1;                 // format
     b[5] = 12;                // variationRegionListOffset
     b[7] = 1;                 // itemVariationDataCount
@@ -168,12 +176,14 @@ fn ivs_roundtrip() {
     b[13] = 1; b[15] = 1;     // axisCount, regionCount
     let mut i = 0; while i < 6 { b[16 + i] = coords[i]; i += 1; }
     b[23] = 1;                // itemCount
-    b[27] = 1;                // regionIndexCount (wordDeltaCount = 0)
-    b[30] = delta;
-    let store = match ReadScope::new(&b).read::<ItemVariationStore<'_>>() { Ok(s) => s, Err(_) => { assert!(false, "a well-formed store parses"); return; } };
+    if long_words { b[24] = 0x80; b[25] = 1; } // wordDeltaCount
+    b[27] = 1;                // regionIndexCount
+    b[30] = delta[0];
+    if long_words { b[31] = delta[1]; b[32] = delta[2]; b[33] = delta[3]; }
+    let store = match ReadScope::new(&b[..n]).read::<ItemVariationStore<'_>>() { Ok(s) => s, Err(_) => { assert!(false, "a well-formed store parses"); return; } };
     let mut out = WriteBuffer::new();
     assert!(ItemVariationStore::write(&mut out, &store).is_ok());
     let bytes = out.into_inner();
-    assert!(bytes.len() == 31, "written size");
-    let mut i = 0; while i < 31 { assert!(bytes[i] == b[i], "write(read(bytes)) == bytes"); i += 1; }
+    assert!(bytes.len() == n, "written size");
+    let mut i = 0; while i < n { assert!(bytes[i] == b[i], "write(read(bytes)) == bytes"); i += 1; }
 }
